@@ -191,7 +191,8 @@ def run(self):
     d.set_value(lambda: (x for x in _CONST[{name!r}]))
     return d
 '''
-        if data == 'dir':
+        if data in ('dir', 'cont'):
+            fin = '    d.finished()\n' if data == 'cont' else ''
             return f'''
 def run(self):
     _RUNLOG.append((self.fullname, id(self)))
@@ -202,7 +203,7 @@ def run(self):
         _h = _p.open('w')
         _h.write(_content)
         _h.close()
-    return d
+{fin}    return d
 '''
         return f'''
 def run(self):
